@@ -22,6 +22,8 @@ A_SLOT = "alpenglow::types::slot::Slot::"
 
 
 def check(run, prefix="O7"):
+    from . import slots as _SL
+    _SL.ob_slot_arithmetic(run, prefix + ".15")
     from . import detectors as _DL
     _DL.ob_loop_exits(run, "O7.14", ['consensus::pool'], 'every newly ready (slot, parent) pair must be recorded and announced: a loop that stops early drops the remaining pairs')
     # "skipped as a consequence of a finalization" / "finalized": the tracker learns these only from the FinalizationEvent
